@@ -79,6 +79,12 @@ EXTRA_PROGRAMS = [
     "f(1, b=2,)",
     "a { b: 1 }",
     "local f(a,) = a; f(1,)",
+    # chomped text blocks with trailing blank lines; tab-led lines inside nested text blocks
+    "|||-\n  a\n\n|||",
+    "|||-\n  b\n\n\n|||",
+    "{ x: |||-\n    c\n\n    d\n\n\n\n  ||| }",
+    "{ a: { b: { c: |||\n        first\n        \tsecond\n        \t\tthird\tend\n      ||| } } }",
+    "[|||\n  \tx\n|||, |||-\n  y\n\n\n|||]",
     # object comprehensions with several specs; field values that are functions, with and without `+`
     "local xs = ['a', 'b']; { [k]: 1 for k in xs if k != 'b' }",
     "local xs = ['a', 'b'], ys = [1]; { [k + y]: y for k in xs for y in ys if y > 0 if k != 'b' }",
